@@ -29,6 +29,7 @@ Obs(post) ==
    pruneT    |-> post.pruneT,
    tip       |-> post.tip,
    saved     |-> post.saved,
+   startH    |-> post.startH,
    inflight  |-> {[tk |-> post.inflight[i].tk, id |-> post.inflight[i].id, h |-> post.inflight[i].h] : i \in DOMAIN post.inflight}]
 
 D(what, spec) == [l |-> l, what |-> what, spec |-> spec]
@@ -38,6 +39,9 @@ ProjDrift(cc, post, q) ==
      FailIf([i \in DOMAIN post.pending |-> post.pending[i].id] # PendingSeq(cc, q), D("pending DB order differs from rank order", "order"))
 \cup FailIf(\E i \in DOMAIN post.pending : post.pending[i].k # KeyOf(cc, post.pending[i].id), D("pending key/value mismatch", "key"))
 \cup FailIf(post.ltime # TimeAt(cc, post.height), D("pool state time differs from chain time", "time"))
+\* the age limits the pool's state carries are the ones expiry is judged against
+\cup FailIf(<<post.A, post.D>> # <<ParamsAt(cc, post.height).A, ParamsAt(cc, post.height).D>>,
+            D("pool state age limits differ from the chain's consensus params of that height", "params"))
 
 StepReset(e) ==
   LET q == Obs(e.post) IN
@@ -67,6 +71,8 @@ StepCall(e) ==
        \cup Fld(e.ev \o ": pruning marks differ", <<r.p.pruneH, r.p.pruneT>>, <<q.pruneH, q.pruneT>>)
        \cup Fld(e.ev \o ": inflight differs", r.p.inflight, q.inflight)
        \cup (IF hasRes THEN FailIf(r.res # e.res \/ r.why # e.why, D(e.ev \o ": result differs", r.res \o "/" \o r.why)) ELSE {})
+       \cup (IF e.ev = "Update" THEN FailIf(<<e.A, e.D>> # <<ParamsAt(c, e.to).A, ParamsAt(c, e.to).D>>,
+                                            D("Update: age limits of the new state differ from the context", "params")) ELSE {})
        \cup (IF e.ev = "AddBegin" THEN FailIf((e.stage = "parked") # AddLookups(c, p, e.id), D("AddBegin: look-ups differ", "lookups")) ELSE {})
        \cup (IF e.ev = "Pending"
              THEN LET pe == PendingEvidence(c, p, e.mb) IN
